@@ -1,6 +1,7 @@
 """C12 — aliases are transparent; alias conflicts are rejected."""
 import itertools
 import json
+import re
 import os
 
 from common import standard_prologue, run_sharded, enc, dec, HX, DRV, VERIF
@@ -196,6 +197,12 @@ def oracle_pair(f):
     leaked = sorted(a for a in ALL_ALIASES if enc(a) in tokens(rs) | tokens(f["gs"]))
     if leaked:
         bad.append("alias names appear in the reports: %s" % leaked)
+    pd = f.get("pdb")
+    if pd:
+        fl = pd.split(" ")[0].split(",")
+        if "-2" not in fl[:2] and (fl[0] != fl[1] or fl[2] != "1"):
+            bad.append("`okane balance -X` with a price db written through declared commodity aliases differs from the same price db "
+                       "written with canonical names (exit codes %s, %s)" % (fl[0], fl[1]))
     b = f.get("bin", "-")
     if b != "-":
         flags = b.split(" ")[0].split(",")
@@ -279,7 +286,19 @@ def run(chk):
     lines = []
     for c in cases:
         if c["type"] == "pair":
-            lines.append("%s o=%s s=%s%s" % (c["id"], enc(c["o"]), enc(c["s"]), " bin=1" if c["bin"] else ""))
+            extra = ""
+            if c["bin"]:
+                # a price db for a converted report, once with canonical commodity names and once through the aliases the ledger declares
+                decl = [(a, k) for k, al in lg1112.COMMODITY_ALIASES.items() for a in al
+                        if re.search(r"^[ \t]+alias[ \t]+%s[ \t\u3000\u00a0]*$" % re.escape(a), c["o"], re.M)]
+                if decl:
+                    target = "CHF"
+                    rows = [(k, a, 2 + i) for i, (a, k) in enumerate(decl)]
+                    pa = "".join("P 2023/12/31 %s %d %s\n" % (k, r, target) for k, a, r in rows)
+                    pb = "".join("P 2023/12/31 %s %d %s\n" % (a, r, target) for k, a, r in rows)
+                    extra = " pdb=%s,%s,%s" % (enc(target), enc(pa), enc(pb))
+                    c["pdb"] = (pa, pb)
+            lines.append("%s o=%s s=%s%s%s" % (c["id"], enc(c["o"]), enc(c["s"]), " bin=1" if c["bin"] else "", extra))
         else:
             lines.append("%s o=%s%s" % (c["id"], enc(c["text"]), " bin=1" if c["bin"] else ""))
     impl = run_sharded(HX, ["c12", "pair"], lines, shards=8)
